@@ -239,6 +239,10 @@ func (its *jsonPrimitive) getTargetFromPatch(path string) (jsonType, string, err
 	if len(paths) < 1 {
 		return nil, "", errors.DatatypeInvalidPatch.New(its.common.L(), "incorrect path: %v", path)
 	}
+	for i, s := range paths {
+		// decode the reference tokens of a JSON pointer (RFC 6901): "~1" is '/', and "~0" is '~'
+		paths[i] = strings.ReplaceAll(strings.ReplaceAll(s, "~1", "/"), "~0", "~")
+	}
 	key := paths[len(paths)-1]
 	paths = paths[1 : len(paths)-1]
 
